@@ -769,3 +769,100 @@ Qed.
 Lemma display_is_xmr a : amount_display a = amount_to_string_with_denomination a Monero /\
                           signed_display a = signed_to_string_with_denomination a Monero.
 Proof. split; reflexivity. Qed.
+
+(* ---- the specification relations are functional ------------------------------------------------ *)
+Lemma x2e_not_digit : is_digit x2e = false. Proof. reflexivity. Qed.
+
+Lemma digits_no_point i rest : all_digits (i ++ x2e :: rest) -> False.
+Proof.
+  intros H. apply all_digits_app in H. destruct H as [_ H]. apply all_digits_cons in H. destruct H as [H _]. discriminate H.
+Qed.
+
+Lemma digits_point_split i1 : forall i2 f1 f2,
+  all_digits i1 -> all_digits i2 -> i1 ++ x2e :: f1 = i2 ++ x2e :: f2 -> i1 = i2 /\ f1 = f2.
+Proof.
+  induction i1 as [|c i1 IH]; intros [|c2 i2] f1 f2 A1 A2 E; cbn [app] in E.
+  - injection E as ->. auto.
+  - injection E as <- _. apply all_digits_cons in A2. destruct A2 as [A2 _]. discriminate A2.
+  - injection E as -> _. apply all_digits_cons in A1. destruct A1 as [A1 _]. discriminate A1.
+  - injection E as <- E. apply all_digits_cons in A1. apply all_digits_cons in A2.
+    destruct (IH i2 f1 f2 (proj2 A1) (proj2 A2) E) as [-> ->]. auto.
+Qed.
+
+Lemma shape_unique s n1 i1 f1 n2 i2 f2 :
+  decimal_shape s n1 i1 f1 -> decimal_shape s n2 i2 f2 ->
+  all_digits i1 -> all_digits i2 -> n1 = n2 /\ i1 = i2 /\ f1 = f2.
+Proof.
+  intros S1 S2 A1 A2.
+  assert (N : n1 = n2).
+  { destruct n1, n2; try reflexivity; exfalso.
+    - eapply shape_unsigned_no_sign; eauto. eapply shape_signed_has_sign; eauto.
+    - eapply shape_unsigned_no_sign; eauto. eapply shape_signed_has_sign; eauto. }
+  subst n2. split; [reflexivity|].
+  inversion S1 as [na ia NEa Ea1 Ea2 Ea3 Ea4|na ia fa Ea1 Ea2 Ea3 Ea4];
+    inversion S2 as [nb ib NEb Eb1 Eb2 Eb3 Eb4|nb ib fb Eb1 Eb2 Eb3 Eb4]; subst.
+  - apply app_inv_head in Eb1. auto.
+  - apply app_inv_head in Eb1. subst. exfalso. eapply digits_no_point; eauto.
+  - apply app_inv_head in Eb1. subst. exfalso. eapply digits_no_point; eauto.
+  - apply app_inv_head in Eb1. symmetry in Eb1. now apply digits_point_split in Eb1.
+Qed.
+
+(* a text denotes at most one quantity *)
+Theorem denotes_functional decs s q1 q2 : denotes decs s q1 -> denotes decs s q2 -> q1 = q2.
+Proof.
+  intros (n1 & i1 & f1 & S1 & A1 & B1 & _ & _ & ->) (n2 & i2 & f2 & S2 & A2 & B2 & _ & _ & ->).
+  destruct (shape_unique s n1 i1 f1 n2 i2 f2 S1 S2 A1 A2) as (-> & -> & ->). reflexivity.
+Qed.
+
+Lemma digit_is_digit_char c : is_digit c = true -> c = digit_char (dig c).
+Proof. destruct c; vm_compute; congruence. Qed.
+Lemma digit_nonzero c : is_digit c = true -> c <> x30 -> 1 <= dig c.
+Proof. destruct c; vm_compute; congruence. Qed.
+
+Lemma dval_inj_fixed x : forall y,
+  all_digits x -> all_digits y -> List.length x = List.length y -> dval x = dval y -> x = y.
+Proof.
+  induction x as [|a x IH]; intros [|b y] A B L V; cbn [List.length] in L; try discriminate; [reflexivity|].
+  injection L as L. apply all_digits_cons in A. apply all_digits_cons in B. destruct A as [A1 A2], B as [B1 B2].
+  rewrite !dval_cons, L in V.
+  pose proof (dval_lt x). pose proof (dval_lt y). pose proof (dval_nonneg x). pose proof (dval_nonneg y).
+  rewrite L in *. pose proof (dig_range a). pose proof (dig_range b). pose proof (pow10_pos (List.length y)).
+  assert (D : dig a = dig b) by nia.
+  assert (V' : dval x = dval y) by nia.
+  rewrite (digit_is_digit_char a A1), (digit_is_digit_char b B1), D. f_equal. now apply IH.
+Qed.
+
+Lemma canon_lower ip : canonical_int ip -> ip = [x30] \/ 10 ^ Z.of_nat (List.length ip - 1) <= dval ip.
+Proof.
+  intros (A & NE & Lead). destruct ip as [|c t]; [congruence|].
+  destruct (Byte.byte_eq_dec c x30) as [->|N]; [left; now rewrite (Lead t eq_refl)|]. right.
+  apply all_digits_cons in A. destruct A as [A _]. pose proof (digit_nonzero c A N).
+  rewrite dval_cons. replace (List.length (c :: t) - 1)%nat with (List.length t) by (cbn [List.length]; lia).
+  pose proof (dval_nonneg t). pose proof (pow10_pos (List.length t)). nia.
+Qed.
+
+Lemma canon_inj x y : canonical_int x -> canonical_int y -> dval x = dval y -> x = y.
+Proof.
+  intros Cx Cy V. pose proof (canon_lower x Cx) as Lx. pose proof (canon_lower y Cy) as Ly.
+  pose proof (dval_lt x) as Ux. pose proof (dval_lt y) as Uy.
+  destruct Cx as (Ax & NEx & _), Cy as (Ay & NEy & _).
+  assert (P : forall n, 1 <= 10 ^ Z.of_nat n) by apply pow10_pos.
+  destruct Lx as [->|Lx], Ly as [->|Ly]; try reflexivity.
+  - change (dval [x30]) with 0 in V. pose proof (P (List.length y - 1)%nat). lia.
+  - change (dval [x30]) with 0 in V. pose proof (P (List.length x - 1)%nat). lia.
+  - apply dval_inj_fixed; auto.
+    destruct (Nat.lt_trichotomy (List.length x) (List.length y)) as [L|[L|L]]; [exfalso|exact L|exfalso].
+    + assert (10 ^ Z.of_nat (List.length x) <= 10 ^ Z.of_nat (List.length y - 1)) by (apply Z.pow_le_mono_r; lia). lia.
+    + assert (10 ^ Z.of_nat (List.length y) <= 10 ^ Z.of_nat (List.length x - 1)) by (apply Z.pow_le_mono_r; lia). lia.
+Qed.
+
+(* an amount has exactly one fixed-point expansion *)
+Theorem expansion_unique decs a s1 s2 : expansion decs a s1 -> expansion decs a s2 -> s1 = s2.
+Proof.
+  intros (i1 & f1 & C1 & A1 & L1 & -> & V1) (i2 & f2 & C2 & A2 & L2 & -> & V2).
+  pose proof (dval_lt f1) as U1. pose proof (dval_lt f2) as U2. rewrite L1 in U1. rewrite L2 in U2.
+  pose proof (dval_nonneg f1). pose proof (dval_nonneg f2). pose proof (pow10_pos decs).
+  assert (Vi : dval i1 = dval i2) by nia.
+  assert (Vf : dval f1 = dval f2) by nia.
+  rewrite (canon_inj i1 i2 C1 C2 Vi), (dval_inj_fixed f1 f2 A1 A2 ltac:(congruence) Vf). reflexivity.
+Qed.
